@@ -82,10 +82,17 @@ func TestVerif_Stream(t *testing.T) {
 			}
 			rmu.Unlock()
 			want := sha256.Sum256(bytes.Join(chunks, nil))
+			// gate only where the documented detection rule says the response is streamed; a buffered
+			// response would otherwise be stalled by the gate itself
+			gated := sc.Profile == "streaming" || (sc.Profile == "auto" &&
+				(sc.CT == "text/event-stream" || sc.CT == "application/x-ndjson" || sc.CT == "text/plain"))
 			var acked atomic.Int64 // number of whole chunks the client has seen
 			var stuck atomic.Bool
 			be.OnAttempt = func(r *zzverif.Recv) zzverif.Plan {
 				return zzverif.Plan{Kind: "ok", Status: 200, Chunked: true, CT: sc.CT, Chunks: chunks, Gate: func(i int) {
+					if !gated {
+						return
+					}
 					// causally gated: chunk i is written only after the client has seen chunks 0..i-1
 					dl := time.Now().Add(3 * time.Second)
 					for acked.Load() < int64(i) {
@@ -102,7 +109,7 @@ func TestVerif_Stream(t *testing.T) {
 			res := zzverif.Do(stk.addr, rq)
 			got := sha256.Sum256(res.Body)
 			kv := append([]any{"n", sc.N, "chunk", sc.Chunk, "seen", len(res.Body) / sc.Chunk, "stuck", stuck.Load(), "complete", res.Complete,
-				"whole", got == want, "ms", res.Elapsed.Milliseconds(), "st", res.Status}, base...)
+				"whole", got == want, "ms", res.Elapsed.Milliseconds(), "st", res.Status, "gated", gated}, base...)
 			b.Emit("Flow", kv...)
 		case "stall", "abort":
 			k := 0
@@ -111,6 +118,9 @@ func TestVerif_Stream(t *testing.T) {
 			}
 			var upstreamClosedAt atomic.Int64
 			be.OnAttempt = func(r *zzverif.Recv) zzverif.Plan {
+				if sc.At == "prehdr" {
+					return zzverif.Plan{Kind: "stall_pre"}
+				}
 				return zzverif.Plan{Kind: "stall_after", Status: 200, Chunked: true, CT: sc.CT, N: 3, K: k}
 			}
 			be.OnDone = func(r *zzverif.Recv, p zzverif.Plan, wrote int, peerGone bool) {
